@@ -259,3 +259,43 @@ Lemma undocumented_code_accepted :
   exists ins, insn_in_domain ins = false
               /\ check_body [] {| f_vararg := false; f_res := []; f_regs := []; f_nvars := 0; f_nglobals := 0 |} [ins] = Ok tt.
 Proof. exists {| i_code := INVALID_INSN; i_ops := [] |}. split; vm_compute; reflexivity. Qed.
+
+(* ------------------------------------------------------------------ error codes of the header checks *)
+
+(* MIR_finish_func's per-instruction header checks report MIR_invalid_insn_error exactly for a
+   broken overflow-branch rule, and MIR_vararg_func_error for: use/phi, va_start outside a vararg
+   function, jret in a function with results, ret/jret mixing, a ret whose operand count differs
+   from the number of results.  (The code is what mir.c passes; MIR_ret_error is never used.) *)
+Lemma header_error_codes_lemma fc rp jp before ins e :
+  check_header fc rp jp before ins = Err e ->
+  (e = E_invalid_insn /\ ovf_branch_p (i_code ins) = true /\ call_code_p (i_code ins) = false
+   /\ match ovf_producer before with None => false | Some pc => ovf_cond (i_code ins) pc end = false)
+  \/ (e = E_vararg_func
+      /\ (code_is (i_code ins) PHI || code_is (i_code ins) USE
+          || (negb (f_vararg fc) && code_is (i_code ins) VA_START)
+          || (code_is (i_code ins) JRET && negb (length (f_res fc) =? 0))
+          || ((code_is (i_code ins) JRET && rp) || (code_is (i_code ins) RET && jp))
+          || (code_is (i_code ins) RET && negb (length (i_ops ins) =? length (f_res fc)))) = true).
+Proof.
+  unfold check_header, ovf_cond. intros H.
+  destruct (code_is (i_code ins) PHI || code_is (i_code ins) USE) eqn:E1;
+    [right; inversion H; split; [reflexivity|]; reflexivity|].
+  destruct (negb (f_vararg fc) && code_is (i_code ins) VA_START) eqn:E2;
+    [right; inversion H; split; reflexivity|].
+  destruct (code_is (i_code ins) JRET && negb (length (f_res fc) =? 0)) eqn:E3;
+    [right; inversion H; split; [reflexivity|]; now rewrite orb_true_r|].
+  destruct ((code_is (i_code ins) JRET && rp) || (code_is (i_code ins) RET && jp)) eqn:E4;
+    [right; inversion H; split; [reflexivity|]; now rewrite orb_true_r|].
+  destruct (code_is (i_code ins) RET && negb (length (i_ops ins) =? length (f_res fc))) eqn:E5;
+    [right; inversion H; split; [reflexivity|]; now rewrite orb_true_r|].
+  destruct (call_code_p (i_code ins)) eqn:E6; [discriminate|].
+  destruct (ovf_branch_p (i_code ins)) eqn:E7; [|discriminate].
+  left. destruct (ovf_producer before) as [pc|].
+  - destruct (overflow_insn_code_p pc); cbn [negb andb] in *.
+    + destruct ((code_is (i_code ins) UBO || code_is (i_code ins) UBNO) && (code_is pc MULO || code_is pc MULOS)).
+      * inversion H. repeat split; reflexivity.
+      * destruct ((code_is (i_code ins) BO || code_is (i_code ins) BNO) && (code_is pc UMULO || code_is pc UMULOS));
+          [inversion H; repeat split; reflexivity | discriminate].
+    + inversion H. repeat split; reflexivity.
+  - inversion H. repeat split; reflexivity.
+Qed.
